@@ -118,6 +118,33 @@ func (bucket *BucketRedis) add(element string) (bool, error) {
 	return true, nil
 }
 
+// restore replaces the list and the length counter of the bucket by _elements_, slot by slot
+func (bucket *BucketRedis) restore(elements []string) error {
+	restoreElements := redis.NewScript(`
+		local key = KEYS[1]
+		local lenKey = key .. '_len'
+		local length = 0
+		redis.call('DEL', key)
+		for i=1, #ARGV do
+			redis.call('RPUSH', key, ARGV[i])
+			if ARGV[i] ~= '' then
+				length = length + 1
+			end
+		end
+		redis.call('SET', lenKey, length)
+		return true
+	`)
+	args := make([]interface{}, len(elements))
+	for i := range elements {
+		args[i] = elements[i]
+	}
+	_, err := restoreElements.Run(context.Background(), getRedisClient(), []string{bucket.key}, args...).Bool()
+	if err != nil {
+		return fmt.Errorf("gostatix: error while restoring bucket %s, error: %v", bucket.key, err)
+	}
+	return nil
+}
+
 // Remove deletes the entry _element_ from the bucket
 func (bucket *BucketRedis) remove(element string) (bool, error) {
 	removeElement := redis.NewScript(`
